@@ -166,6 +166,31 @@ def main():
                 if k not in pairs and ua["f"] != ub["f"] and ua["d"] == ub["d"]:
                     ratio = S.ratio({"p": [0, 0], "f": ua["f"]}, {"p": [0, 0], "f": ub["f"]})
                     if ratio is not None: pairs[k] = (ua, ub, ratio)
+    # ---- an application has declared equivalences ACROSS dimensions (length = 2 time, kilo-mass = 3 length, c = 1 style): every
+    # operation that needs a conversion between the two still refuses, == stays False, and nothing yields a number
+    xcases = []
+    XU = ("vfxlength", "vfxtime", "vfxmass")
+    for ua in XU:
+        for ub in XU + ("second", "meter"):
+            if ua == ub or (ua, ub) in (("vfxtime", "second"), ("vfxlength", "meter")): continue
+            for pa, pb in ((None, None), ("kilo", None), (None, "milli")):
+                for k, m_ in (("int", ["int", "4", "1"]), ("float", ["float", "5", "2"]), ("dec", ["dec", "7", "4"]), ("int", ["int", "0", "1"])):
+                    for op in ("add", "sub", "lt", "le", "gt", "ge", "eq", "ne"):
+                        xcases.append({"op": op, "l": {"t": "qty", "m": m_, "u": [[pa, ua, 1]]}, "r": {"t": "qty", "m": m_, "u": [[pb, ub, 1]]}})
+                    xcases.append({"op": "in_unit", "l": {"t": "qty", "m": m_, "u": [[pa, ua, 1]]}, "r": {"t": "unit", "u": [[pb, ub, 1]]}})
+    if c.tier == "quick": xcases = rng.sample(xcases, 500)
+    xr = impl("quantity_worker.py", {"cases": xcases, "cross_declare": True})["results"]
+    for case, rec in zip(xcases, xr):
+        op, res = case["op"], rec["res"]
+        c.count(["cross-declared", case], nontrivial=True)
+        l, rr = rec.get("l"), rec.get("r")
+        if not (l and rr) or dim_of(l) == dim_of(rr): continue
+        repl = {"declared": ["vfxlength.equals(2 vfxtime)", "(kilo vfxmass).equals(3 vfxlength)", "vfxtime.equals(Decimal('0.5') second)"], "case": case, "result": res,
+                "how": "harness/impl/quantity_worker.py with cross_declare: true"}
+        if op in ("add", "sub", "lt", "le", "gt", "ge", "in_unit") and res.get("err") not in ("TypeError", "ConversionNotFound"):
+            c.violation(f"incommensurable:{op}", f"{op} of quantities of different dimensions gave {res} after an equivalence between the two units was declared", repl)
+        if op == "eq" and res != {"t": "bool", "b": False}: c.violation("incommensurable:eq", f"== gave {res}", repl)
+        if op == "ne" and res != {"t": "bool", "b": True}: c.violation("incommensurable:ne", f"!= gave {res}", repl)
     convtbl = qgen.conv_table(pairs.values())
     # offsets between temperature scales are not part of the dispatch model's conversion oracle (ratios only): those cases are judged on the
     # implementation above and left out of the kernel comparison
